@@ -120,6 +120,11 @@ MUTANTS = [
     ("H-count-stats-single-pass", "C13", "count_stats|has_severity", "mypy/util.py", "    notes = [e for e in messages if _has_severity(e, \": note:\", \": error:\")]\n    return len(errors), len(notes), len(error_files)", "    notes = [m for m in messages if _has_severity(m, \": note:\", \": error:\")]\n    return len(errors), len(notes), len(error_files)", "pass"),
     ("coord-results-overwritten", "C07", "coord", "mypy/build.py", "            results.update(data.result)", "            results = data.result", "violation"),
     ("coord-worker-freed-after-interface", "C07", "coord", "mypy/build.py", "            if not data.is_interface:\n                # Mark worker as free after it finished checking implementation.\n                self.free_workers.add(idx)", "            self.free_workers.add(idx)", "violation"),
+    ("permodule-least-specific-wildcard-wins", "C17", "permodule", "mypy/options.py", "        for i in range(len(path), 0, -1):", "        for i in range(1, len(path) + 1):", "violation"),
+    ("permodule-own-entry-ignored-for-dotted", "C17", "permodule", "mypy/options.py", "        if module in self._per_module_cache:\n            self._unused_configs.discard(module)", "        if module in self._per_module_cache and \".\" not in module:\n            self._unused_configs.discard(module)", "violation"),
+    ("permodule-glob-replaces-instead-of-layering", "C17", "permodule", "mypy/options.py", "                    options = options.apply_changes(self.per_module_options[key])", "                    options = self.apply_changes(self.per_module_options[key])", "violation"),
+    ("permodule-wildcard-key-without-star", "C17", "permodule", "mypy/options.py", '            key = ".".join(path[:i] + ["*"])', '            key = ".".join(path[:i])', "violation"),
+    ("H-permodule-key-local", "C17", "permodule", "mypy/options.py", '            key = ".".join(path[:i] + ["*"])', '            prefix = path[:i]\n            key = ".".join(prefix + ["*"])', "pass"),
     ("enabled-parent-check-dropped", "C13", "is_error_code_enabled", "mypy/errors.py", "elif error_code.sub_code_of is not None and error_code.sub_code_of in current_mod_disabled:\n            return False", "elif error_code.sub_code_of is not None and error_code.sub_code_of in current_mod_enabled:\n            return False", "violation"),
 ]
 
